@@ -145,7 +145,11 @@ where
 
   fn on_admit(&self, key: &K, cost: u64) -> AdmissionDecision<K> {
     let mut state = self.state.lock();
-    if !state.protected.contains(key) && !state.probationary.contains(key) {
+    // A re-admission carries the entry's new cost: record it in the segment that
+    // already holds the key (push_front updates the cost of an existing key).
+    if state.protected.contains(key) {
+      state.protected.push_front(key.clone(), cost);
+    } else {
       state.probationary.push_front(key.clone(), cost);
     }
     AdmissionDecision::Admit
